@@ -26,6 +26,11 @@ OUTSIDE = {
  "r14-C15-v1": "a recovery that waits for the end of the request body is slow, not wrong; the body of the case ends after 300 ms (third review)",
  "r13-C03-v2": "whether an informational status counts as 'written' is C13's to say (third review; C13 reports it)",
  "r14-C03-v2": "whether a Write of no bytes counts as 'written' is C13's to say (third review; C13 reports it)",
+ "r21-C18-v1": "what a regex bind made of several groups captures is decided in the tree, before any accessor runs: C18 sends its values through a placeholder route (C02 and C01 report it)",
+ "r21-C11-v1": "shows only after a refused Any: which part of a refused declaration stands is the implementation's business (third review, as r13-C11-v2; C08 allows a refused `*` registration to serve in the trees where nothing forbids it)",
+ "r21-C11-v2": "Routes(path, \"*\") is nowhere said to be a method string of Routes, and the other half needs a refused declaration (third review)",
+ "r21-C03-v1": "needs a body write that fails below: whether that counts as 'written' is C13's to say (third review; C13 and C14 report it)",
+ "r21-C03-v2": "needs a ReturnHandler mapped during the request: none in C03 (C14, whose subject it is, reports it - as C14-v2 of the first round)",
  "r20-C07-v2": "needs AutoHead: C07 declares flat routes without it (C11 and C10 report it)",
  "r18-C01-v1": "needs AutoHead: C01 registers flat route sets without it (C11 and C10 report it)",
  "r18-C05-v1": "a memo inside the injector keyed by struct type: applied by value and by pointer (C04, which does both, reports it without any concurrency)",
